@@ -301,27 +301,60 @@ def generate():
 FAILED_SECTIONS = []
 
 
+EXTRA_GENERATORS = []
+FAILED_SECTIONS = []
+REFERENCE = os.path.join(os.path.dirname(os.path.abspath(__file__)), "generated_reference.json")
+SECTION_LINES = {}      # section name -> the lines it produced in this run (for --update-reference)
+_reference_cache = None
+
+
+def _reference():
+    global _reference_cache
+    if _reference_cache is None:
+        try:
+            import json as _json
+            with open(REFERENCE) as f:
+                _reference_cache = _json.load(f)
+        except (OSError, ValueError):
+            _reference_cache = {}
+    return _reference_cache
+
+
+def _defined_names(lines):
+    names = []
+    for l in lines:
+        m = re.match(r"\s*(?:Definition|Fixpoint|Inductive|Record)\s+([A-Za-z_][\w']*)", l)
+        if m:
+            names.append(m.group(1))
+    return names
+
+
 def _guarded(name, fn, out):
-    """Run one section of the translator; when the source construct it reads is not found, omit ONLY its
-    definitions (the proofs and model files that depend on them stop compiling: their obligations are
-    broken; properties that do not depend on them are not affected) and record the failure."""
+    """Run one section of the translator.  When the source construct it reads is not found, the section's
+    definitions are taken from the committed reference snapshot (tools/generated_reference.json: what the
+    section produced on the tree the proofs were developed against), so that the model keeps compiling and the
+    correspondence / the property oracles can still look for a failing input; the failure is recorded in
+    .cache/translator_status.json together with the names the section defines, and ./check counts it as a
+    broken obligation of every property whose Coq files mention one of those names."""
     buf = []
+    why = None
     try:
         fn(buf.append)
     except TranslationError as e:
-        FAILED_SECTIONS.append((name, str(e)))
-        out.append("(* TRANSLATION-FAILED section %s: %s *)" % (name, str(e).replace("*)", "* )")))
-        out.append("")
-        return
+        why = str(e)
     except Exception as e:  # a plugin bug must not take the other sections down
-        FAILED_SECTIONS.append((name, "%s: %s" % (type(e).__name__, e)))
-        out.append("(* TRANSLATION-FAILED section %s: %s *)" % (name, str(e).replace("*)", "* )")))
-        out.append("")
+        why = "%s: %s" % (type(e).__name__, e)
+    if why is None:
+        SECTION_LINES[name] = list(buf)
+        out.extend(buf)
         return
-    out.extend(buf)
-
-
-EXTRA_GENERATORS = []
+    ref = _reference().get(name)
+    FAILED_SECTIONS.append((name, why, _defined_names(ref or [])))
+    out.append("(* TRANSLATION-FAILED section %s: %s *)" % (name, why.replace("*)", "* )")))
+    if ref:
+        out.append("(* definitions below are the REFERENCE SNAPSHOT of this section, not read from the current source *)")
+        out.extend(ref)
+    out.append("")
 
 
 def main():
@@ -335,7 +368,7 @@ def main():
                     mod = __import__(f[:-3])
                     EXTRA_GENERATORS.append(mod.generate)
                 except Exception as e:
-                    FAILED_SECTIONS.append(("plugin: " + f[:-3], "import failed: %s: %s" % (type(e).__name__, e)))
+                    FAILED_SECTIONS.append(("plugin: " + f[:-3], "import failed: %s: %s" % (type(e).__name__, e), []))
         text = generate()
     except TranslationError as e:
         print(f"TRANSLATION-FAILED: {e}")
@@ -345,11 +378,18 @@ def main():
     try:
         os.makedirs(os.path.dirname(status), exist_ok=True)
         with open(status, "w") as f:
-            _json.dump({"failed_sections": FAILED_SECTIONS}, f)
+            _json.dump({"failed_sections": [{"section": n, "why": w, "defines": d} for n, w, d in FAILED_SECTIONS]}, f)
     except OSError:
         pass
-    for name, why in FAILED_SECTIONS:
+    for name, why, _ in FAILED_SECTIONS:
         print(f"TRANSLATION-FAILED section {name}: {why}")
+    if "--update-reference" in sys.argv:
+        if FAILED_SECTIONS:
+            print("reference NOT updated: some sections failed")
+        else:
+            with open(REFERENCE, "w") as f:
+                _json.dump(SECTION_LINES, f, indent=0, sort_keys=True)
+            print("reference snapshot updated: %d sections" % len(SECTION_LINES))
     os.makedirs(os.path.dirname(OUT), exist_ok=True)
     old = None
     if os.path.exists(OUT):
